@@ -278,6 +278,9 @@ def c_pairs_mixer(which):
     return c
 
 
+PUBLIC = VObj("PublicTable", {})
+
+
 def _wrap_inputs(n, kwmode):
     def mk(st, interp):
         use_state(st)
@@ -303,6 +306,8 @@ def _wrap_inputs(n, kwmode):
             st.assume(C["d"] > 0)
         elif kwmode == "unknown-keyword":
             kw["densty"] = 1
+        elif kwmode == "table":
+            C["table"] = kw["table"] = VObj("PrivateTable", {})
         return args, kw, C
     return mk
 
@@ -325,6 +330,9 @@ def _wrap_post(which):
             st.oblige("post.component %d is a fresh copy made by formula() of the caller's component (never the caller's object)" % i,
                       z3.BoolVal(isinstance(f, VObj) and f.cls == "FormulaCopy" and f.attrs["of"] is C["fs"][i]))
             st.oblige("post.component %d keeps its quantity" % i, R(q) == C["qs"][i])
+            st.oblige("post.component %d is built on the table asked for (table=, else the public table)" % i,
+                      z3.BoolVal(isinstance(f, VObj) and (f.attrs.get("table") is C["table"] if "table" in C
+                                                           else (f.attrs.get("table") is PUBLIC or f.attrs.get("table") is None))))
         if mode == "density":
             st.oblige("post.density= and name= are applied to the mixture",
                       z3.And(spec.eq_goal(interp, st, r.attrs.get("density"), C["d"]), z3.BoolVal(r.attrs.get("name") == "mix")))
@@ -339,9 +347,9 @@ def _wrap_unit(fname, which, n, mode):
     return Unit("%s[%d components, %s]" % (fname, n, mode), FORMULAS + "." + fname, _wrap_inputs(n, mode), _wrap_post(which),
                 contracts={FORMULAS + ".formula": c_formula_copy, FORMULAS + "._mix_by_weight_pairs": c_pairs_mixer("weight"),
                            FORMULAS + "._mix_by_volume_pairs": c_pairs_mixer("volume")},
-                inline={CORE + ".default_table"}, env={(CORE, "PUBLIC_TABLE"): VObj("PublicTable", {})},
+                inline={CORE + ".default_table"}, env={(CORE, "PUBLIC_TABLE"): PUBLIC},
                 replay={"module": "c11", "task": "replay"})
 
 
 U_MIX_WRAPPERS = [_wrap_unit(fn, w, n, m) for fn, w in (("mix_by_weight", "weight"), ("mix_by_volume", "volume"))
-                  for n, m in ((2, "plain"), (2, "density"), (1, "natural_density"), (2, "odd"), (1, "unknown-keyword"))]
+                  for n, m in ((2, "plain"), (2, "density"), (1, "natural_density"), (2, "odd"), (1, "unknown-keyword"), (2, "table"))]
